@@ -86,3 +86,12 @@ Example C11_ex_simple :
   let s := mkIenv 0 [] [] [] [($"who", $"the world")] in
   macros_render (fun t => iret t) s $"Hello {who}, and goodbye." false = iret $"Hello the world, and goodbye.".
 Proof. vm_compute. reflexivity. Qed.
+
+(* an undefined invocation is left as written, with one diagnostic *)
+Theorem C11_undefined_left_as_written : forall sr s pre name post,
+  quiet pre -> quiet post -> name_ok name -> getValue s name = None ->
+  let text := pre ++ 123 :: name ++ 125 :: post in
+  macros_render sr s text false =
+  Ok (text, [$"undefined macro: " ++ (123 :: name ++ [125]) ++ $": " ++ pre ++ (123 :: name ++ [125]) ++ post]).
+Proof. exact undefined_invocation. Qed.
+Print Assumptions C11_undefined_left_as_written.
